@@ -40,6 +40,19 @@ def is_hex_expr(e: ast.expr) -> bool:
 
 def run(m: Model, r: Report, tier: str) -> None:
     r.rule("R1", "URI construction depends on every parameter and passes the parameter map on unaltered", floor=3)
+    r.rule("R7", "values interpolated into URI strings render as their wire text: the scheme enum formats as its value (StrEnum), not as Class.MEMBER", floor=2)
+    sch_mod = m.module("gallia.transports.schemes")
+    sch_classes = [n for n in ast.walk(sch_mod.tree) if isinstance(n, ast.ClassDef) and n.name == "TransportScheme"]
+    if not sch_classes:
+        raise AnalysisError("gallia.transports.schemes.TransportScheme not found")
+    turi = m.require_class("gallia.transports.base.TargetURI")
+    interpolated = [f.qualname for f in turi.methods.values() for n in ast.walk(f.node) if isinstance(n, ast.FormattedValue) and ast.unparse(n.value) == "self.scheme"]
+    for sc in sch_classes:
+        bases = [ast.unparse(b) for b in sc.bases]
+        renders = any(b.split(".")[-1] == "StrEnum" for b in bases) or any(isinstance(x, ast.FunctionDef) and x.name in ("__str__", "__format__") for x in sc.body)
+        r.check(renders or not interpolated, "R7", f"gallia.transports.schemes.TransportScheme@{sc.lineno}#formats-as-value",
+                f"TransportScheme({', '.join(bases)}) is interpolated into URI text by {interpolated}: since Python 3.12 format() of a (str, Enum) mix-in member gives "
+                "'TransportScheme.DOIP', only StrEnum (or an own __str__) gives 'doip', so TargetURI.location is no URI any more", loc=f"{sch_mod.relpath}:{sc.lineno}")
     r.rule("R2", "join_host_port brackets exactly the hosts that contain a colon (inverse of split_host_port)", floor=2)
     r.rule("R3", "keys the discovery scanners emit are fields of the scheme's config; values emitted in hex are parsed with auto_int", floor=8)
     r.rule("R4", "auto_int accepts decimal, hex, octal and binary (int(x, 0))", floor=1)
@@ -176,6 +189,21 @@ def run(m: Model, r: Report, tier: str) -> None:
                 "trying another base first silently changes decimal / binary values for this scheme only", loc=f.loc)
     if n_val < 4:
         raise AnalysisError(f"only {n_val} transport auto_int validators found")
+    # ... and keeps the number: a field parsed with auto_int is not typed as an enum whose _missing_ hook folds unknown values into a catch-all member
+    n_typed = 0
+    for c in m.classes.values():
+        if not c.module.name.startswith("gallia.transports.") or "auto_int" not in c.methods:
+            continue
+        for fname in auto_int_fields(m, c):
+            ann_ = c.class_annots.get(fname)
+            if ann_ is None:
+                continue
+            n_typed += 1
+            lossy = [k.name for k in m.annotation_classes(c.module, ann_, c) if m.enum_members(k) is not None and any("_missing_" in b.methods for b in m.mro(k))]
+            r.check(not lossy, "R4", f"{c.qualname}.{fname}#keeps-the-number", f"the field is typed {ast.unparse(ann_)}: after auto_int pydantic coerces the number through {lossy}, "
+                    "whose _missing_ hook replaces values outside its table: the transport does not get the numeric setting the URI carries", loc=c.loc)
+    if n_typed < 8:
+        raise AnalysisError(f"only {n_typed} typed auto_int fields found in the transport configs")
 
     # ---------------------------------------------------------------- R5
     un = m.require_function(f"{UTILS}.unravel")
